@@ -188,6 +188,7 @@ func (ft *FakeTarget) serveRequest(rw http.ResponseWriter, r *http.Request) {
 		}
 	}
 	rw.Header().Set("X-Verif-Origin", ft.name)
+	rw.Header().Set("X-Verif-Path", r.URL.EscapedPath())
 	rw.Header().Set("Content-Type", "text/plain")
 	ft.w.rec.Emit("tg_end", KV{"tg": ft.name, "r": rid, "how": "replied"})
 	rw.WriteHeader(200)
